@@ -189,3 +189,47 @@ Theorem opinfo_never_forwarded c db r : equal_fold (r_cmd r) w_opinfo = true -> 
 Proof.
   intros H. unfold path_incr, rfiltered, filter_command. rewrite H. cbn [orb negb andb]. rewrite Bool.andb_false_r. reflexivity.
 Qed.
+
+(* ---- the target keyspace does not depend on how the workers' traffic interleaves ---- *)
+Section LastWrite.
+Variables (K V : Type) (keqb : K -> K -> bool).
+Hypothesis keqb_spec : forall a b, keqb a b = true <-> a = b.
+
+(* the value a key holds after the writes ws were applied in order (last write wins) *)
+Fixpoint holds (ws : list (K * V)) (k : K) : option V :=
+  match ws with
+  | [] => None
+  | (k', v) :: r => match holds r k with Some x => Some x | None => if keqb k' k then Some v else None end
+  end.
+
+Lemma holds_some_in ws k v : holds ws k = Some v -> In (k, v) ws.
+Proof.
+  induction ws as [|[k' v'] ws IH]; cbn; [discriminate|].
+  destruct (holds ws k) as [x|] eqn:E.
+  - intros H. injection H as <-. right. apply IH. reflexivity.
+  - destruct (keqb k' k) eqn:Ek; [|discriminate]. intros H. injection H as <-. apply keqb_spec in Ek. subst. left. reflexivity.
+Qed.
+
+Lemma in_holds ws k v : NoDup (map fst ws) -> In (k, v) ws -> holds ws k = Some v.
+Proof.
+  induction ws as [|[k' v'] ws IH]; cbn; intros Hnd Hin; [contradiction|].
+  inversion Hnd as [|? ? Hni Hnd']; subst.
+  destruct Hin as [H|H].
+  - injection H as -> ->.
+    destruct (holds ws k) as [x|] eqn:E.
+    + exfalso. apply Hni. apply in_map_iff. exists (k, x). split; [reflexivity | apply holds_some_in; exact E].
+    + assert (Hk : keqb k k = true) by (apply keqb_spec; reflexivity). rewrite Hk. reflexivity.
+  - rewrite (IH Hnd' H). reflexivity.
+Qed.
+
+Theorem holds_perm ws ws' : Permutation ws ws' -> NoDup (map fst ws) -> forall k, holds ws k = holds ws' k.
+Proof.
+  intros Hp Hnd k.
+  assert (Hnd' : NoDup (map fst ws')) by (eapply Permutation_NoDup; [apply Permutation_map; exact Hp | exact Hnd]).
+  destruct (holds ws k) as [v|] eqn:E.
+  - symmetry. apply in_holds; [exact Hnd'|]. eapply Permutation_in; [exact Hp | apply holds_some_in; exact E].
+  - destruct (holds ws' k) as [v|] eqn:E'; [|reflexivity].
+    apply holds_some_in in E'. apply Permutation_sym in Hp.
+    pose proof (in_holds ws k v Hnd (Permutation_in _ Hp E')) as H. congruence.
+Qed.
+End LastWrite.
